@@ -566,6 +566,7 @@ func ruleUn1(c *Ctx) {
 	rec := c.callsTo(fd.Body, "types.unify")
 	c.R.Check(len(rec) == 0, "types.unify", "no cross-kind recursion", fd.Pos(), "unify recurses only through unifyComposite", "unify calls itself directly (e.g. unwrapping one side): kinds are no longer matched pairwise")
 	c.un6(fd)
+	c.un7()
 }
 
 // un6: unify refuses a pair of composite nodes it has already seen ("recursive type"). If the in-process set is never
@@ -1495,4 +1496,79 @@ func (c *Ctx) nameExact() {
 		}
 		c.R.Check(bad == "", name, "field found exactly when the name is in the type's table", fd.Pos(), "i, ok := Index[name]; success only under ok", bad+": fields can be 'found' under names the object type does not have")
 	}
+}
+
+// UN-7 (part of UN-1): the unary structural recursions over types — the occurs check freeFrom, the substitution applySubst and
+// the groundness test slotFree — reach EVERY component of every composite kind: in each composite arm of their Kind switch the
+// recursive calls, taken together, are applied to all components of that kind (list element; map key and value; object field
+// types; function parameters and result; optional payload; tuple members). A component that is tested by something else than
+// the recursion itself (or not at all) is a hole: `freeFrom` that looks at a map key with `keyable` lets `a := map[a, num]`
+// through the occurs check.
+func (c *Ctx) un7() {
+	want := map[string][]string{
+		"types.KList":  {".El"},
+		"types.KMap":   {".Key", ".Val"},
+		"types.KObj":   {".Fields[].Val"},
+		"types.KFun":   {".Param[]", ".Return"},
+		"types.KMaybe": {".Elem"},
+		"types.kTuple": {".Val[]"},
+	}
+	for _, fn := range []string{"freeFrom", "applySubst", "slotFree"} {
+		fd := c.FuncDecl("types", fn)
+		if fd == nil {
+			c.R.Anchor("types." + fn)
+			continue
+		}
+		self := c.calleeObjOfDecl(fd)
+		var sw *ast.SwitchStmt
+		inspectNoLit(fd.Body, func(x ast.Node) bool {
+			if s, ok := x.(*ast.SwitchStmt); ok && sw == nil && s.Tag != nil && strings.HasSuffix(src(s.Tag), "Kind") {
+				sw = s
+			}
+			return true
+		})
+		if sw == nil {
+			c.R.Unk("types."+fn, "UN-7 switch over Kind", fd.Pos(), "no switch over the kind found")
+			continue
+		}
+		pr := newPathResolver(c, fd)
+		cases := c.switchCasesByConst(sw)
+		var kinds []string
+		for k := range want {
+			kinds = append(kinds, k)
+		}
+		sort.Strings(kinds)
+		for _, k := range kinds {
+			cc := cases[k]
+			if cc == nil {
+				continue // an absent arm is KINDSW's business (tuples only occur outermost for freeFrom)
+			}
+			seen := map[string]bool{}
+			for _, call := range c.calls(&ast.BlockStmt{List: cc.Body}) {
+				if c.calleeObj(call) != self || len(call.Args) == 0 {
+					continue
+				}
+				if _, p, ok := pr.path(call.Args[0], 0); ok {
+					seen[p] = true
+				}
+			}
+			var missing []string
+			for _, w := range want[k] {
+				if !seen[w] {
+					missing = append(missing, w)
+				}
+			}
+			c.R.Check(len(missing) == 0, "types."+fn, "UN-7 arm "+k+" recurses into every component", cc.Pos(), "recursive calls cover "+strings.Join(want[k], ", "), "the arm does not apply "+fn+" to component(s) "+strings.Join(missing, ", ")+" of the type: a type variable occurring there escapes the occurs check / substitution / groundness test (a := map[a, num] becomes a legal binding)")
+		}
+	}
+}
+
+func (c *Ctx) calleeObjOfDecl(fd *ast.FuncDecl) types.Object {
+	var res types.Object
+	c.eachFuncDecl(func(pk *packages.Package, d *ast.FuncDecl) {
+		if d == fd {
+			res = pk.TypesInfo.Defs[d.Name]
+		}
+	})
+	return res
 }
